@@ -24,7 +24,7 @@ struct FactorOutcome {
     bool aborted = false; std::string abort_msg;
     long long info = -999;
     uint64_t digest = 0;           // perms, structure and values of L and U, nnz counts
-    int expansions = -1; long expand_allocs = 0;
+    int expansions = -1; long expand_allocs = 0; int glu_exp = 0;   // glu_exp: growth events counted by the library itself, also valid on a failed return
     float for_lu = 0, total_needed = 0;
     long implied_lo = 0, implied_hi = 0;   // byte size of the returned arrays: used part / plus the pointer arrays
     bool canary_ok = true; std::string canary_msg;
@@ -101,7 +101,9 @@ inline FactorOutcome factor_once(const FactorProblem<T> &P, const StorageCfg &cf
     SuperLUStat_t stat; StatInit(&stat); GlobalLU_t Glu; std::memset(&Glu, 0, sizeof Glu); int_t info = -999; bool have_ac = false;
     GuardedWork gw; void *work = nullptr;
     if (cfg.lwork > 0) { gw.make(cfg.lwork, cfg.misalign, cfg.workfill); work = gw.work; }
-    if (fault_k > 0) vf_set_fault("expand", fault_k, 0);
+    // sticky: the k-th factor-growth allocation and every later one fail (a single refusal is retried by the
+    // library with a smaller request, which is a legitimate success)
+    if (fault_k > 0) vf_set_fault("expand", fault_k, 1);
     bool ab = guarded([&] {
         if (P.o.colperm != MY_PERMC) get_perm_c((int)P.o.colperm, &A.A, perm_c.data());
         sp_preorder(&so, &A.A, perm_c.data(), etree.data(), &AC); have_ac = true;
@@ -111,7 +113,7 @@ inline FactorOutcome factor_once(const FactorProblem<T> &P, const StorageCfg &cf
     vf_set_fault(nullptr, 0, 0);
     out.expand_allocs = vf_stats()->expand_allocs;
     if (ab) { out.aborted = true; out.abort_msg = vf_abort_msg(); gw.release(); vf_purge(); return out; }
-    out.info = info; out.expansions = stat.expansions;
+    out.info = info; out.expansions = stat.expansions; out.glu_exp = Glu.num_expansions > 0 ? Glu.num_expansions - 1 : 0;
     int k = std::min(m, n);
     bool formed = info >= 0 && info <= k && cfg.lwork != -1;
     if (formed && info == 0) {
